@@ -250,6 +250,11 @@ func HarnessC15L1F() {
 	before, after, _, rng := zzC15Setup()
 	x := zzvrt.Float64()
 	zzvrt.Assume(zzvrt.IsIntegral(x))
+	// stated domain of this unit: |x| < 2^53, where every integer and x+-1 are exact in float64
+	// (with IEEE semantics and no such bound the solver offers x = -9.9e232 under a one-sided
+	// bound -- an integer no Go type holds, which the property cannot be about; the 64-bit edges
+	// belong to the int64/uint64 unit).  Found as a false alarm of the thorough tier and corrected.
+	zzvrt.Assume(zzvrt.And(x > -9007199254740992.0, x < 9007199254740992.0))
 
 	// (1) representable
 	zzvrt.Check("C15.L1.representable", zzvrt.Implies(before.admF(x), rng.holdsF(x)))
